@@ -14,28 +14,30 @@ import anyio
 
 
 class Quiescence:
-    """Lets the harness's main task wait until the library has run to quiescence
+    """Lets harness tasks wait until the library has run to quiescence
     (ready queue empty) at the current virtual instant."""
 
     def __init__(self, loop):
         self.loop = loop
-        self._waiter: Optional[asyncio.Future] = None
+        self._waiters: List[asyncio.Future] = []
         self.chain: Optional[Callable] = None
         loop.idle_hook = self._idle
 
     def _idle(self, loop):
-        w = self._waiter
-        if w is not None and not w.done():
-            self._waiter = None
-            w.set_result(None)
+        ws = [w for w in self._waiters if not w.done()]
+        self._waiters = []
+        if ws:
+            for w in ws:
+                w.set_result(None)
             return
         if self.chain is not None:
             self.chain(loop)
 
     async def settle(self):
         """Return once nothing else is runnable at this instant."""
-        self._waiter = self.loop.create_future()
-        await self._waiter
+        w = self.loop.create_future()
+        self._waiters.append(w)
+        await w
 
 
 class FakeStdout:
